@@ -174,6 +174,14 @@ func (st *State) loadStruct(ref Term, t types.Type) (SVal, error) {
 		}
 		sv.F = append(sv.F, v)
 	}
+	for _, k := range st.fe.P.ghostKeysOf(owner) {
+		g := st.fe.P.Ghosts[k]
+		v, err := st.loadField(ref, owner, g.Name, g.Type)
+		if err != nil {
+			return nil, err
+		}
+		sv.F = append(sv.F, v)
+	}
 	return sv, nil
 }
 
@@ -217,6 +225,16 @@ func (st *State) storeStruct(ref Term, t types.Type, v SVal) error {
 		f := s.Field(i)
 		if err := st.storeField(ref, owner, f.Name(), f.Type(), sv.F[i]); err != nil {
 			return err
+		}
+	}
+	// ghost fields travel with the value (when the value carries them)
+	gk := st.fe.P.ghostKeysOf(owner)
+	if len(sv.F) == s.NumFields()+len(gk) {
+		for i, k := range gk {
+			g := st.fe.P.Ghosts[k]
+			if err := st.storeField(ref, owner, g.Name, g.Type, sv.F[s.NumFields()+i]); err != nil {
+				return err
+			}
 		}
 	}
 	return nil
@@ -383,6 +401,14 @@ func (st *State) freshValue(prefix string, t types.Type) (SVal, error) {
 		sv := StructV{T: t}
 		for i := 0; i < s.NumFields(); i++ {
 			v, err := st.freshValue(prefix+"."+s.Field(i).Name(), s.Field(i).Type())
+			if err != nil {
+				return nil, err
+			}
+			sv.F = append(sv.F, v)
+		}
+		for _, k := range st.fe.P.ghostKeysOf(typeKey(t)) {
+			g := st.fe.P.Ghosts[k]
+			v, err := st.freshValue(prefix+"."+g.Name, g.Type)
 			if err != nil {
 				return nil, err
 			}
